@@ -52,7 +52,7 @@ pub fn set_location(
     let manifest_pack_reader = manifest_pack_reader.unwrap();
     let pack_header = manifest_pack_reader.parse_block_at::<PackHeader>(jbk::Offset::zero())?;
     let header = manifest_pack_reader
-        .parse_block_at::<ManifestPackHeader>(jbk::Offset::from(PackHeader::SIZE))?;
+        .parse_block_at::<ManifestPackHeader>(jbk::Offset::from(PackHeader::BLOCK_SIZE))?;
     let pack_offsets = PackOffsetsIter::new(pack_header.check_info_pos, header.pack_count);
     for pack_offset in pack_offsets {
         let mut pack_info =
